@@ -37,11 +37,20 @@ After(steps, k) ==
          IF s.item.cache = "other" THEN Proj(s.caches)
          ELSE Fold(s.consults, Len(s.consults), After(steps, k - 1))
 
+\* CacheStep compares the model's cache state with the projection of the real import caches after
+\* every step.  It is the early warning that model and code have drifted apart (cache poisoning is
+\* visible here before any document differs), but the caches are internal state that a
+\* behaviour-preserving refactoring may reorganise: a mismatch alone is reported as a NOTE
+\* ("ModelDrift") and rejects the record only together with an observable difference.
+CacheDrift(r) == \E k \in 1..Len(r.steps) :
+                    r.steps[k].item.cache # "other" /\ r.steps[k].caches_ok /\ Proj(r.steps[k].caches) # After(r.steps, k)
+Observable(r) == \/ \E k \in 1..Len(r.steps) : r.steps[k].digest # r.steps[k].fresh
+                 \/ \E k \in 1..Len(r.steps) : r.steps[k].foreign # <<>>
 HistFailing(r) ==
     {x \in {"SameAsFresh", "CacheStep", "NoForeignValue", "Repeatable"} :
        \/ x = "SameAsFresh" /\ \E k \in 1..Len(r.steps) : r.steps[k].digest # r.steps[k].fresh
-       \/ x = "CacheStep" /\ \E k \in 1..Len(r.steps) :
-                                r.steps[k].item.cache # "other" /\ Proj(r.steps[k].caches) # After(r.steps, k)
+       \/ x = "CacheStep" /\ CacheDrift(r)
+                           /\ (Observable(r) \/ ~PrintT(<<"NOTE", r.id, "ModelDrift: real import caches differ from DecodeHistory!ImplStep">>))
        \/ x = "NoForeignValue" /\ \E k \in 1..Len(r.steps) : r.steps[k].foreign # <<>>
        \/ x = "Repeatable" /\ \E j, k \in 1..Len(r.steps) :
                                 r.steps[j].pel = r.steps[k].pel /\ r.steps[j].digest # r.steps[k].digest }
